@@ -1134,6 +1134,10 @@ func init() {
 		}
 		return evalC08(shape, mut)
 	}
+	// replay files written by witnessVerdict carry the test name "witness-<id>" and the same trace shape
+	for _, id := range []string{c08FDupTail, c08FOffCurve} {
+		replayers["C08/witness-"+id] = replayers["C08/block-mutations"]
+	}
 	replayers["C08/merkle-differential"] = func(raw json.RawMessage, fs *hx.FindingSet) error {
 		var items []c08DiffCase
 		if err := json.Unmarshal(raw, &items); err != nil {
@@ -1332,18 +1336,23 @@ func TestC08(t *testing.T) {
 	}
 	regressFixed(t, c, fs, "C08")
 
-	// merkle differential, every leaf count 1..33
+	// merkle differential, every leaf count 1..33 (stops at the first, i.e. smallest, failing count)
 	reps := hx.N(4, 40)
+diff:
 	for n := 1; n <= 33; n++ {
 		for r := 0; r < reps; r++ {
 			d := c08DiffCase{N: n, Tag: fmt.Sprintf("d%d-%d-%d", hx.Seed(), hx.Shard(), r), V3: r%2 == 1}
 			c.Count(d, !c08Pow2(n), "merkle-differential")
 			if err := evalC08Diff(d); err != nil {
 				c.Violate("merkle-differential", err.Error(), []interface{}{d})
-				t.Errorf("merkle differential: %v", err)
-				r = reps
+				late = append(late, func() { t.Errorf("merkle differential: %v", err) }) // rapid needs an unfailed T
+				break diff
 			}
 		}
+	}
+	if t.Failed() { // a fixed finding has returned (regressFixed): rapid refuses to run on a failed T
+		t.Logf("block-mutations search skipped: the test has already failed")
+		return
 	}
 
 	c.Check(t, "block-mutations", hx.N(1500, 26000), func(cs *hx.Case) {
